@@ -34,7 +34,7 @@ func lexMapFor(id string, seed int64, batch, i int) *lexgen.GMap {
 			{Name: "comment", Pattern: `#[^\n]*`}, {Name: "nl", Pattern: `\n`}, {Name: "Id", Pattern: `[a-z]+`}, {Name: "sp", Pattern: ` +`}}}}
 	}
 	r := mon.NewRNG(seed, id, batch, "map", i)
-	return lexgen.GenMap(r, &lexgen.MapOpts{Supported: true, MaxStates: 1 + i%4, Elide: i%3 == 0, Plain: i%4 == 1})
+	return lexgen.GenMap(r, &lexgen.MapOpts{Supported: true, MaxStates: 1 + i%4, Elide: i%3 == 0, Plain: i%4 == 1, OddNames: id == "C05"})
 }
 
 func c05Count(tier string) int { return pick(tier, 120, 700) }
